@@ -410,8 +410,72 @@ func ruleValCons(c *Ctx) {
 		}
 		c.check(bad == token.NoPos && nW > 0, "print-uses-ofmt", bad, "print's argument writer converts every argument with OFMT, in every output mode", "print's argument writer converts an argument with toString (CONVFMT): in that output mode `print` ignores OFMT")
 	}
+	// (3b) number -> string: the digits printed on the integer path of value.str come from the same plain
+	// float->int64 conversion whose round trip the guard tests (R-F2I decides that guard); a clamping helper in
+	// its place makes the guard true for values that are not integers of that size (2^63 prints as MaxInt64)
+	if sf := c.ssaFunc("interp", "value.str"); sf != nil {
+		nFmt, good := 0, true
+		allInstrs(sf, func(in ssa.Instruction) {
+			call, ok := in.(*ssa.Call)
+			if !ok {
+				return
+			}
+			if fo := calleeObj(call); fo == nil || funcFullName(fo) != "strconv.FormatInt" || len(call.Call.Args) < 1 {
+				return
+			}
+			nFmt++
+			cv, ok := call.Call.Args[0].(*ssa.Convert)
+			if !ok || !isFloatToInt(cv) {
+				good = false
+				return
+			}
+			if _, ok := roundTripGuarded(cv); !ok {
+				good = false
+			}
+		})
+		c.check(nFmt > 0 && good, "str-int-path", sf.Pos(), "value.str prints integer digits only for int64(n) under the round-trip test n == float64(int64(n))", "value.str formats an integer that is not the plain int64 conversion of the number guarded by its own round-trip test (e.g. a saturating helper): numbers at or beyond 2^63 print as a clamped integer instead of going through OFMT/CONVFMT")
+	} else {
+		c.undecided("str-int-path", token.NoPos, "value.str not found on the SSA form")
+	}
 	// (4) the whole-string recogniser and the prefix converter agree on what surrounds and what bounds a number
 	ruleNumParse(c)
+}
+
+// roundTripGuarded: cv (float -> int) is dominated by the test x == float64(int(x)) on the same operand.
+func roundTripGuarded(cv *ssa.Convert) (*ssa.BasicBlock, bool) {
+	fn := cv.Parent()
+	k := srcKey(cv.X, 0)
+	for _, b := range fn.Blocks {
+		if len(b.Instrs) == 0 {
+			continue
+		}
+		ifi, ok := b.Instrs[len(b.Instrs)-1].(*ssa.If)
+		if !ok {
+			continue
+		}
+		bo, ok := ifi.Cond.(*ssa.BinOp)
+		if !ok || (bo.Op != token.EQL && bo.Op != token.NEQ) {
+			continue
+		}
+		for _, side := range []ssa.Value{bo.X, bo.Y} {
+			back, ok := side.(*ssa.Convert)
+			if !ok {
+				continue
+			}
+			inner, ok := back.X.(*ssa.Convert)
+			if !ok || !isFloatToInt(inner) || srcKey(inner.X, 0) != k || !types.Identical(inner.Type(), cv.Type()) {
+				continue
+			}
+			idx := 0
+			if bo.Op == token.NEQ {
+				idx = 1
+			}
+			if b.Dominates(cv.Block()) && !reachableAvoiding(b.Succs[1-idx], b)[cv.Block()] {
+				return b, true
+			}
+		}
+	}
+	return nil, false
 }
 
 // ruleNumParse: parseFloat (is this text a number?) and parseFloatPrefix (which number?) are siblings:
